@@ -212,9 +212,11 @@ def coq_project():
         sh(["coq_makefile", "-f", "_CoqProject", "-o", "Makefile"], cwd=COQ, check=True)
 
 
-def coq_make(targets, timeout=1200, regen=None):
+def coq_make(targets, timeout=1200, regen=None, then=None):
     """make -k the given .vo targets; returns (ok, output).  `regen` (writes coq/gen/*.v from the source tree) runs under the
-    same lock as the build, so that no other run can regenerate or compile between the two."""
+    same lock as the build, so that no other run can regenerate or compile between the two.  `then` (e.g. Print Assumptions on
+    the compiled module) runs under the same lock after a successful build -- another check running in parallel must not rewrite
+    a .vo while it is being loaded; its result is returned as third component."""
     with Lock("coq"):
         if regen:
             regen()
@@ -225,6 +227,8 @@ def coq_make(targets, timeout=1200, regen=None):
             # make is gone; the compilers it started may not be: nothing may keep compiling in /verif/coq behind our back
             sh(["pkill", "-x", "coqc"], cwd=COQ)
             out += "\nError: build timed out after %d s" % timeout
+        if then is not None:
+            return rc == 0, out, (then() if rc == 0 else None)
     return rc == 0, out
 
 
